@@ -77,7 +77,51 @@ def lattice(tier: str, seed: int):
         out.append({"size": [1, 5], "spacing": [0.5, 1.25], "origin": [10.5, -3.25], "direction": dirs2["rot"], "ac": ac, "dir": "rot"})
         out.append({"size": [4, 1], "spacing": [1.0, 1.0], "origin": [0.0, 0.0], "direction": dirs2["perm"], "ac": ac, "dir": "perm"})
         out.append({"size": [4, 1, 3], "spacing": [0.5, 1.25, 2.0], "origin": [10.5, -3.25, 100.0], "direction": dirs3["rot"], "ac": ac, "dir": "rot"})
-    return out
+    # grids whose STORED size is fractional while they have ceil(size) samples: every lattice grid with an odd
+    # axis (all axes >= 3) halved by downsample(); a larger odd grid; an uneven resample(); float size=
+    derived = []
+    for spec in out:
+        z = spec["size"]
+        if min(z) >= 3 and any(n % 2 for n in z):
+            derived.append(dict(spec, derive="downsample"))
+    for ac in (True, False):
+        derived.append({"size": [9, 13], "spacing": [0.5, 1.25], "origin": [10.5, -3.25], "direction": dirs2["rot"], "ac": ac, "dir": "rot", "derive": "downsample"})
+        derived.append({"size": [9, 7, 5], "spacing": [0.5, 1.25, 2.0], "origin": [0.0, 0.0, 0.0], "direction": dirs3["perm"], "ac": ac, "dir": "perm", "derive": "downsample"})
+        derived.append({"size": [8, 5], "spacing": [0.5, 1.25], "origin": [10.5, -3.25], "direction": dirs2["rot"], "ac": ac, "dir": "rot", "derive": {"resample": [0.7, 1.1]}})
+        derived.append({"size": [4.5, 6.5], "spacing": [1.0, 1.0], "origin": [0.0, 0.0], "direction": dirs2["perm"], "ac": ac, "dir": "perm"})
+    return out + derived
+
+
+def is_fractional(spec: dict) -> bool:
+    return "derive" in spec or any(float(n) != int(n) for n in spec["size"])
+
+
+def build_real(spec: dict):
+    """Real deepali grid of a spec; 'derive' applies the real derivation call (downsample / resample)."""
+    g = rg.real_grid({k: v for k, v in spec.items() if k != "derive"})
+    d = spec.get("derive")
+    if d == "downsample":
+        g = g.downsample()
+    elif isinstance(d, dict) and "resample" in d:
+        g = g.resample(tuple(d["resample"]))
+    return g
+
+
+def build_ref(spec: dict) -> RefGrid:
+    """Reference grid of a spec. Derived grids follow the derivation promises (C03): same center and
+    direction; downsample halves the stored size (number of samples n = ceil(size)) keeping the corner samples
+    (flag True) or the extent n*s (flag False); resample keeps the extent n*s and sets the spacing."""
+    r = rg.ref_grid({k: v for k, v in spec.items() if k != "derive"})
+    d = spec.get("derive")
+    if d == "downsample":
+        r = rg.resized(r, r.z / 2.0)
+    elif isinstance(d, dict) and "resample" in d:
+        s_new = np.asarray(d["resample"], dtype=np.float64)
+        out = r.copy()
+        out.z = r.extent / s_new
+        out.s = s_new
+        r = out
+    return r
 
 
 _SIZE_SWAP = {1: 1, 2: 5, 3: 8, 4: 7, 5: 2, 7: 4, 8: 3}
@@ -87,9 +131,16 @@ def b_menu(spec: dict, seed: int):
     """Second grids derived from A: same, shifted by a fractional sample, rotated, other size, other
     spacing, other align_corners flag."""
     D = len(spec["size"])
-    rA = rg.ref_grid(spec)
+    rA = build_ref(spec)
     frac = np.array([0.3, -0.45, 0.7][:D])
     gen = fr.generic_rotations(D, seed + 1, 1)[0]
+    if is_fractional(spec):
+        # second grids of a fractional-size grid are built directly with the (fractional) float size=
+        base = {"size": rA.z.tolist(), "spacing": rA.s.tolist(), "direction": rA.R.tolist(), "ac": rA.ac}
+        return [
+            ("shift", dict(base, center=(rA.c + rA.R @ (rA.s * frac)).tolist())),
+            ("rot", dict(base, direction=(gen @ rA.R).tolist(), center=(rA.c + np.array([1.5, -2.25, 0.75][:D])).tolist())),
+        ]
     base = {"size": spec["size"], "spacing": spec["spacing"], "direction": spec["direction"], "ac": spec["ac"]}
     out = []
     out.append(("same", dict(base, origin=spec["origin"])))
@@ -110,6 +161,7 @@ def bounds(tier):
     return {
         "lattice_grids": len(L),
         "second_grids_per_grid": 6,
+        "fractional_size_grids": sum(1 for s in L if is_fractional(s)),
         "grid_pairs": sum(len(b_menu(s, 0)) for s in L),
         "frames_per_pair": 8,
         "ordered_frame_pairs": 64,
@@ -253,9 +305,9 @@ class Pair:
         self.specs = [specA, specB]
         self.bname = bname
         self.D = len(specA["size"])
-        self.refs = [rg.ref_grid(specA), rg.ref_grid(specB) if specB is not None else None]
+        self.refs = [build_ref(specA), build_ref(specB) if specB is not None else None]
         self.err = None
-        st, g = guarded(lambda: [rg.real_grid(specA), rg.real_grid(specB) if specB is not None else None])
+        st, g = guarded(lambda: [build_real(specA), build_real(specB) if specB is not None else None])
         if st == "raises":
             self.err = g
             self.grids = [None, None]
@@ -708,7 +760,7 @@ def check_anchors(sink: Sink, pair: Pair):
 
     zero = np.zeros((1, D))
     last = (n - 1)[None]
-    origin = np.asarray(pair.specs[0]["origin"], dtype=np.float64)[None] if "origin" in pair.specs[0] else r.origin[None]
+    origin = np.asarray(pair.specs[0]["origin"], dtype=np.float64)[None] if ("origin" in pair.specs[0] and "derive" not in pair.specs[0]) else r.origin[None]
     # index 0 is the origin (the spec's origin, and the attribute the grid reports)
     run("index0-is-origin", lambda: G.index_to_world(f32(zero)), origin, tw)
     run("origin-attribute", lambda: G.origin().reshape(1, D), origin, tw)
@@ -1064,7 +1116,7 @@ def check_cube(sink: Sink, pair: Pair):
     cA = cubes[0]
     if cA is not None:
         cax = CORNERS if r.ac else CUBE
-        for label, size in (("same-size", [int(v) for v in r.n]), ("other-size", [_SIZE_SWAP[int(v)] if int(v) > 1 else 3 for v in r.n])):
+        for label, size in (("same-size", [int(v) for v in r.n]), ("other-size", [_SIZE_SWAP.get(int(v), int(v) + 2) if int(v) > 1 else 3 for v in r.n])):
             for ac2 in (True, False):
                 if ac2 and min(size) < 2:
                     continue
